@@ -519,3 +519,56 @@ Proof. intros. unfold denote_hosts. rewrite flat_map_app. reflexivity. Qed.
 Theorem routes_in_file_order : forall a pats rbody b,
   denote_routes (a ++ SSec (KRoute pats) rbody :: b) = denote_routes a ++ denote_route pats rbody ++ denote_routes b.
 Proof. intros. unfold denote_routes. rewrite flat_map_app. reflexivity. Qed.
+
+(* ================================================================================================
+   F. comma-separated pattern lists
+   ================================================================================================ *)
+Lemma split_on_none : forall d a, ~ In d a -> split_on d a = [a].
+Proof.
+  intros d. induction a as [|x a IH]; intros H; [reflexivity|]. cbn [split_on].
+  replace (x =? d) with false by (symmetry; apply N.eqb_neq; intros ->; apply H; left; reflexivity).
+  rewrite IH; [reflexivity|]. intros Hin. apply H. right. exact Hin.
+Qed.
+
+Lemma split_on_first : forall d a b, ~ In d a -> split_on d (a ++ d :: b) = a :: split_on d b.
+Proof.
+  intros d. induction a as [|x a IH]; intros b H.
+  - cbn [app split_on]. rewrite N.eqb_refl. reflexivity.
+  - cbn [app split_on].
+    replace (x =? d) with false by (symmetry; apply N.eqb_neq; intros ->; apply H; left; reflexivity).
+    rewrite IH; [reflexivity|]. intros Hin. apply H. right. exact Hin.
+Qed.
+
+(* a route header `route p1 , p2 ,p3` denotes the patterns p1, p2, p3 *)
+Theorem patterns_split : forall rest p i, blankb i = true -> wf_pattern p ->
+  Forall (fun t => blankb (fst (fst t)) = true /\ blankb (snd (fst t)) = true /\ wf_pattern (snd t)) rest ->
+  map trim (split_on COMMA (i ++ pats_text p rest)) = p :: map snd rest.
+Proof.
+  induction rest as [|[[w1 w2] q] rest IH]; intros p i Hi [Hv Hc] Hrest.
+  - cbn [pats_text map]. rewrite split_on_none.
+    + cbn [map]. f_equal. rewrite <- (app_nil_r p) at 1. apply trim_blank; [exact Hi|reflexivity|right; exact Hv].
+    + intros Hin. apply in_app_or in Hin. destruct Hin as [Hin|Hin]; [|exact (Hc Hin)].
+      revert Hin. apply blankb_no; [exact Hi|discriminate|discriminate].
+  - inversion Hrest as [|? ? [Hw1 [Hw2 Hq]] Hrest']; subst. cbn [fst snd] in *.
+    cbn [pats_text map]. rewrite !app_assoc. rewrite split_on_first.
+    + cbn [map]. f_equal.
+      * rewrite <- app_assoc. apply trim_blank; [exact Hi|exact Hw1|right; exact Hv].
+      * apply IH; assumption.
+    + intros Hin. apply in_app_or in Hin. destruct Hin as [Hin|Hin].
+      * apply in_app_or in Hin. destruct Hin as [Hin|Hin]; [|exact (Hc Hin)].
+        revert Hin. apply blankb_no; [exact Hi|discriminate|discriminate].
+      * revert Hin. apply blankb_no; [exact Hw1|discriminate|discriminate].
+Qed.
+
+Corollary route_patterns : forall p rest rbody, wf_pattern p ->
+  Forall (fun t => blankb (fst (fst t)) = true /\ blankb (snd (fst t)) = true /\ wf_pattern (snd t)) rest ->
+  map rt_matches (denote_route (pats_text p rest) rbody) = p :: map snd rest.
+Proof.
+  intros p rest rbody Hp Hrest.
+  assert (Hs : map trim (split_on COMMA (pats_text p rest)) = p :: map snd rest) by (apply (patterns_split rest p [] eq_refl Hp Hrest)).
+  unfold denote_route. rewrite Hs.
+  destruct (str_val (kv_last k_file rbody)); [rewrite map_map; cbn [rt_matches]; rewrite map_id; reflexivity|].
+  destruct (str_val (kv_last k_directory rbody)); [rewrite map_map; cbn [rt_matches]; rewrite map_id; reflexivity|].
+  destruct (str_val (kv_last rkey_proxy rbody)); [rewrite map_map; cbn [rt_matches]; rewrite map_id; reflexivity|].
+  destruct (str_val (kv_last k_redirect rbody)); rewrite map_map; cbn [rt_matches]; rewrite map_id; reflexivity.
+Qed.
